@@ -97,15 +97,31 @@ def run(rep, prog, thorough):
     rep.floor("fs-mutation sites", len(sites), 5)
 
 
+def first_walk_entry(t):
+    """elem(os.walk(P), k) -> (P, k)"""
+    if isinstance(t, Op) and t.op == "elem" and isinstance(t.args[0], Op) and t.args[0].op == "call:os.walk":
+        return t.args[0].args[0] if t.args[0].args else None, t.args[1]
+    return None
+
+
 def walk_elem_parts(fm, t):
-    """os.path.join(root, file) with (root, _, files) = i-th os.walk tuple and file = j-th of files -> (walk elem, j loop) """
+    """os.path.join(root, file) with (root, _, files) = an os.walk tuple W and file taken from W's files:
+       ('each', W, elem(files, j))                      - the j-th file of a loop over the files
+       ('first', W, loop, condition, elem(files, j))    - the first file (in listing order) satisfying a condition:
+                                                          next(f for f in files if cond) / return inside a scan"""
     if isinstance(t, Op) and t.op == "call:os.path.join" and len(t.args) == 2:
         a, b = t.args
-        if isinstance(a, Op) and a.op == "getitem" and a.args[1] == Const(0) and isinstance(a.args[0], Op) and a.args[0].op == "elem" \
-                and isinstance(a.args[0].args[0], Op) and a.args[0].args[0].op == "call:os.walk":
+        if isinstance(a, Op) and a.op == "getitem" and a.args[1] == Const(0) and first_walk_entry(a.args[0]) is not None:
             w = a.args[0]
-            if isinstance(b, Op) and b.op == "elem" and b.args[0] == Op("getitem", w, Const(2)):
-                return w, b
+            files = Op("getitem", w, Const(2))
+            if isinstance(b, Op) and b.op == "elem" and b.args[0] == files:
+                return ("each", w, b)
+            # ite(exists(L, c), loopret(L, elem(files, iL)), <nothing found>)
+            if isinstance(b, Ite) and isinstance(b.c, Op) and b.c.op == "exists" and isinstance(b.a, Op) and b.a.op == "loopret" \
+                    and b.a.args[0] == b.c.args[0] and isinstance(b.a.args[1], Op) and b.a.args[1].op == "elem" and b.a.args[1].args[0] == files:
+                return ("first", w, b.c.args[0].v, b.c.args[1], b.a.args[1], b.c)
+            if isinstance(b, Op) and b.op == "loopret" and isinstance(b.args[1], Op) and b.args[1].op == "elem" and b.args[1].args[0] == files:
+                return ("first", w, b.args[0].v, None, b.args[1], None)
     return None
 
 
@@ -120,38 +136,60 @@ def check_delete_loops(rep, fm):
             continue
         where = e.func
         tag = "--delete-all" if is_all else "--delete"
-        parts = walk_elem_parts(fm, fm.norm(e.data[1][0]))
-        rep.check(parts is not None and len(e.loops) == 2, "C11.R3.scope", "%s removes os.path.join(root, file) for file in the walk's files" % tag,
-                  where, e.node, "%s removes %r: not a file entry of the walked directory" % (tag, e.data[1][0]), node=e.node)
-        if parts is None or len(e.loops) != 2:
+        target = fm.norm(e.data[1][0])
+        parts = walk_elem_parts(fm, target)
+        rep.check(parts is not None, "C11.R3.scope", "%s removes os.path.join(root, file) for file in the walk's files" % tag,
+                  where, e.node, "%s removes %r: not a file entry of the walked directory" % (tag, target), node=e.node)
+        if parts is None:
             continue
-        Lo, Li = e.loops
-        wroot = fm.norm(Lo.iter)
-        pels = wroot.args[0] if isinstance(wroot, Op) and wroot.args else None
-        top_only = any(b == TRUE for b in Lo.stops)
-        rep.check(top_only, "C11.R3.scope", "%s: the directory walk stops after the top level (unconditional break)" % tag, where, Lo.node,
-                  "%s walks below the top level of the PEL directory (no unconditional break after the first os.walk entry): "
-                  "files in subdirectories such as the archive are affected" % tag, node=Lo.node)
+        w = parts[1]
+        top_only = first_walk_entry(w)[1] == Const(0)       # index 0: the walk is left unconditionally after its first entry
+        rep.check(top_only, "C11.R3.scope", "%s: only the first (top-level) os.walk entry is used" % tag, where, e.node,
+                  "%s walks below the top level of the PEL directory (no unconditional break/return after the first os.walk entry): "
+                  "files in subdirectories such as the archive are affected" % tag, node=e.node)
         if is_all:
+            Li = [L for L in e.loops if parts[0] == "each" and L.idx == parts[2].args[1]]
             isf = [x for x in walk(g) if isinstance(x, Op) and x.op == "call:os.path.isfile"]
-            rep.check(any(fm.norm(x.args[0]) == fm.norm(e.data[1][0]) for x in isf) and not Li.breaks, "C11.R3.scope",
+            rep.check(bool(Li) and any(fm.norm(x.args[0]) == target for x in isf) and not Li[0].stops and
+                      fm.norm(Li[0].iter) == parts[2].args[0], "C11.R3.scope",
                       "--delete-all removes every regular file (os.path.isfile guard on the same path, no early exit)", where, e.node,
                       "--delete-all does not remove exactly the regular files of the directory", node=e.node)
-        else:
-            fname = parts[1]
+        elif parts[0] == "each":
+            fname = parts[2]
+            Li = [L for L in e.loops if L.idx == fname.args[1]]
             cont = [x for x in walk(g) if isinstance(x, Op) and x.op in ("in",) and x.args[1] == fname]
-            rep.check(bool(cont), "C11.R3.scope", "--delete removes only a file whose name contains the id", where, e.node,
+            rep.check(bool(cont) and bool(Li), "C11.R3.scope", "--delete removes only a file whose name contains the id", where, e.node,
                       "--delete does not test that the file name contains the entry id", node=e.node)
-            # at most one: a break in the inner loop under exactly the removal condition, after the removal
-            brk = [ev for ev in fm.events[Li.events[0]:Li.events[1]] if ev.kind == "break" and ev.seq > e.seq and len(ev.loops) == 2]
-            one = any(implies(fm.norm(e.guard), fm.norm(b.guard))[0] for b in brk)
+            # at most one: the scan is left under exactly the removal condition, after the removal
+            one = False
+            if Li:
+                brk = [ev for ev in fm.events[Li[0].events[0]:Li[0].events[1]] if ev.kind in ("break", "return") and ev.seq > e.seq
+                       and ev.loops and ev.loops[-1] is Li[0] and (ev.kind == "break" or ev.func == Li[0].func)]
+                one = any(implies(fm.norm(e.guard), fm.norm(b.guard))[0] for b in brk)
             rep.check(one, "C11.R3.scope", "--delete stops after the first removal (break on the removal path)", where, e.node,
                       "--delete can remove more than one file: no break follows the removal on every path", node=e.node)
-            # not found message iff nothing removed
-            nf = [ev for ev in fm.events if ev.kind == "print" and ev.func == e.func and any(
+        else:
+            _, w, lid, cond, fname, ex = parts
+            Lk = I.loops.get(lid)
+            cnd = fm.norm(cond) if cond is not None else None
+            has = cnd is not None and any(isinstance(x, Op) and x.op == "in" and x.args[1] == fname for x in conj_terms(cnd))
+            rep.check(has and Lk is not None and fm.norm(Lk.iter) == fname.args[0], "C11.R3.scope",
+                      "--delete removes only a file whose name contains the id", where, e.node,
+                      "--delete does not test that the file name contains the entry id", node=e.node)
+            once = Lk is not None and Lk not in e.loops and not any(fm.norm(L.iter) == fname.args[0] for L in e.loops) and \
+                (ex is None or implies(g, ex)[0])
+            rep.check(once, "C11.R3.scope", "--delete removes the first matching file only (outside any scan, on the found path)", where, e.node,
+                      "--delete can remove more than one file / runs when nothing matched", node=e.node)
+        if is_one:
+            # not found message
+            nf = [ev for ev in fm.events if ev.kind == "print" and implies(fm.norm(ev.guard), fm.arg("IDToDelete"))[0] and any(
                 is_const(a, str) and "not found" in a.v for a in ev.data[0])]
             rep.check(bool(nf), "C11.R3.scope", "--delete reports 'PEL not found' when nothing matched", where, "print('PEL not found')",
                       "--delete no longer reports 'PEL not found'")
+
+
+def conj_terms(c):
+    return list(c.args) if isinstance(c, Op) and c.op == "and" else [c]
 
 
 def check_json_name(rep, prog, fm):
@@ -173,7 +211,8 @@ def check_json_name(rep, prog, fm):
                     dirs.append(t)
             leaves(d)
             ok_dir = any(x == fm.arg("output_dir") for x in dirs)
-            parts = pelx.flat_parts(name)
+            parts = [x.args[0] if isinstance(x, Op) and x.op == "fv" and x.args[1] == Const("") and x.args[2] == Const("") else x
+                     for x in pelx.flat_parts(name)]          # f'{s}' of a string is the string
             ok_name = len(parts) == 4 and isinstance(parts[0], Op) and parts[0].op == "call:os.path.basename" and \
                 parts[1] == Const(".") and parts[3] == Const(".json") and isinstance(parts[2], Op) and parts[2].op == "getitem" \
                 and parts[2].args[1] == Const(0) and isinstance(parts[2].args[0], Op) and parts[2].args[0].op == "call:" + PT + "parsePEL"
